@@ -7,6 +7,8 @@ import CookModel.Lemmas.ExtLawsEvents
 import CookModel.Lemmas.ExtLawsLocal
 import CookModel.Lemmas.ExtLawsSingle
 import CookModel.Lemmas.ExtLawsValue
+import CookModel.Lemmas.C02Lift
+import CookModel.Lemmas.C02LiftMeta
 import CookModel.Lemmas.LexLaws
 /-
   C02  Core-syntax recipes parse identically under every extension subset.
@@ -380,7 +382,8 @@ def otherFlags (fs : List Nat) : List Nat := parserFlags.filter (fun g => !fs.co
 
 /-- The general form.  `LocalTo G cs block`: for every parser flag NOT in `G` the block does not
     contain the syntax that flag reinterprets (one clause per flag: `modsCore`, `aliasCore`,
-    `rangeCore`, `advCore`, `timerCore`, `metaKeyCore`).  Then any two extension sets that agree on
+    `rangeCore`, `advCore`, `timerCore`, `metaKeyCore`; for INTERMEDIATE_PREPARATIONS alone, with
+    COMPONENT_MODIFIERS in `G`: `interCore`).  Then any two extension sets that agree on
     the flags of `G` give the same events and panic flag on the block, whatever events came before.
     `G = []` is `C02_parser_ext_irrelevant`, `G = parserFlags` is `C02_parser_flags_only`, `G` = all
     flags but MODES is `C02_modes_local`; every other mixture is new. -/
@@ -411,7 +414,7 @@ theorem C02_alias_local (cs : CharSpec) (e₁ e₂ : Ext) (oldStyle : Bool) (blo
     (h : aliasCore block = true) :
     runBlock cs e₁ oldStyle block evs p = runBlock cs e₂ oldStyle block evs p :=
   runBlock_local cs e₁ e₂ oldStyle block evs p ha
-    ⟨Or.inl ⟨by decide, by decide⟩, Or.inr h, Or.inl (by decide), Or.inl (by decide), Or.inl (by decide),
+    ⟨Or.inl ⟨by decide, Or.inl (by decide)⟩, Or.inr h, Or.inl (by decide), Or.inl (by decide), Or.inl (by decide),
      Or.inl (by decide)⟩
 
 /-- RANGE_VALUES changes only quantities with a `-`: on a block where no `{quantity}` of a long-form
@@ -423,7 +426,7 @@ theorem C02_range_local (cs : CharSpec) (e₁ e₂ : Ext) (oldStyle : Bool) (blo
     (h : rangeCore block = true) :
     runBlock cs e₁ oldStyle block evs p = runBlock cs e₂ oldStyle block evs p :=
   runBlock_local cs e₁ e₂ oldStyle block evs p ha
-    ⟨Or.inl ⟨by decide, by decide⟩, Or.inl (by decide), Or.inr h, Or.inl (by decide), Or.inl (by decide),
+    ⟨Or.inl ⟨by decide, Or.inl (by decide)⟩, Or.inl (by decide), Or.inr h, Or.inl (by decide), Or.inl (by decide),
      Or.inl (by decide)⟩
 
 /-- ADVANCED_UNITS changes (in the parser) only quantities of the shape value, blank, word without `%`:
@@ -435,7 +438,7 @@ theorem C02_advanced_local (cs : CharSpec) (e₁ e₂ : Ext) (oldStyle : Bool) (
     (h : advCore block = true) :
     runBlock cs e₁ oldStyle block evs p = runBlock cs e₂ oldStyle block evs p :=
   runBlock_local cs e₁ e₂ oldStyle block evs p ha
-    ⟨Or.inl ⟨by decide, by decide⟩, Or.inl (by decide), Or.inl (by decide), Or.inr h, Or.inl (by decide),
+    ⟨Or.inl ⟨by decide, Or.inl (by decide)⟩, Or.inl (by decide), Or.inl (by decide), Or.inr h, Or.inl (by decide),
      Or.inl (by decide)⟩
 
 /-- TIMER_REQUIRES_TIME changes only timers without a quantity: on a block where every `~` is followed
@@ -447,7 +450,7 @@ theorem C02_timer_time_local (cs : CharSpec) (e₁ e₂ : Ext) (oldStyle : Bool)
     (h : timerCore block = true) :
     runBlock cs e₁ oldStyle block evs p = runBlock cs e₂ oldStyle block evs p :=
   runBlock_local cs e₁ e₂ oldStyle block evs p ha
-    ⟨Or.inl ⟨by decide, by decide⟩, Or.inl (by decide), Or.inl (by decide), Or.inl (by decide), Or.inr h,
+    ⟨Or.inl ⟨by decide, Or.inl (by decide)⟩, Or.inl (by decide), Or.inl (by decide), Or.inl (by decide), Or.inr h,
      Or.inl (by decide)⟩
 
 /-- … and on whole inputs: if the flag's clause holds for every block of the input, the event stream
@@ -474,6 +477,52 @@ theorem C02_single_flag_local_input (cs : CharSpec) (e₁ e₂ : Ext) (input : L
       (fun oldStyle b hb evs p => C02_advanced_local cs e₁ e₂ oldStyle b evs p ha hb),
    fun ha h => pullEvents_congr cs e₁ e₂ input _ h
       (fun oldStyle b hb evs p => C02_timer_time_local cs e₁ e₂ oldStyle b evs p ha hb)⟩
+
+/-- which ingredient events carry an intermediate reference -/
+def C02.obsI (e : Nat) (b : List Tok) : List Bool :=
+  (runBlock (α := Rat) toyCharSpec ⟨e⟩ true b #[] none).1.toList.map (fun ev => match ev with
+    | .ingredient i => i.val.inter.isSome
+    | _ => false)
+
+/-- INTERMEDIATE_PREPARATIONS alone (the gap "trigger `&(`"): with COMPONENT_MODIFIERS answering alike in
+    both sets (on or off — `bitflags`: INTERMEDIATE_PREPARATIONS contains the COMPONENT_MODIFIERS bit, so
+    it can only be on when COMPONENT_MODIFIERS is), the flag changes only components with an `&` modifier
+    directly followed by `(`: on a block without a `&` token directly followed by a `(` token (`interCore`),
+    two extension sets that agree on the other six parser flags give the same events — the block may use
+    `&` references and all other modifiers, aliases, ranges, advanced units, quantity-less timers.
+    Both places that read the flag are covered: `modifiers()` (the attempt to consume `( … )` after `&`)
+    and `parse_modifiers` (`parse_intermediate_ref_data`). -/
+theorem C02_intermediate_local (cs : CharSpec) (e₁ e₂ : Ext) (oldStyle : Bool) (block : List Tok)
+    (evs : Array (Ev α)) (p : Option String)
+    (ha : AgreeOn (otherFlags [Gen.EXT_INTERMEDIATE_PREPARATIONS]) e₁ e₂) (h : interCore block = true) :
+    runBlock cs e₁ oldStyle block evs p = runBlock cs e₂ oldStyle block evs p :=
+  runBlock_local cs e₁ e₂ oldStyle block evs p ha
+    ⟨Or.inl ⟨by decide, Or.inr h⟩, Or.inl (by decide), Or.inl (by decide), Or.inl (by decide), Or.inl (by decide),
+     Or.inl (by decide)⟩
+
+/-- … and on whole inputs (event stream of the pull parser) -/
+theorem C02_intermediate_local_input (cs : CharSpec) (e₁ e₂ : Ext) (input : List Char)
+    (ha : AgreeOn (otherFlags [Gen.EXT_INTERMEDIATE_PREPARATIONS]) e₁ e₂)
+    (h : AllBlocksOf cs input interCore = true) :
+    pullEvents (α := α) cs e₁ input = pullEvents cs e₂ input :=
+  pullEvents_congr cs e₁ e₂ input _ h
+    (fun oldStyle b hb evs p => C02_intermediate_local cs e₁ e₂ oldStyle b evs p ha hb)
+
+/-- `@&flour{}`: a `&` reference, no `&(`; `@&(1)x{}`: an intermediate reference.  The clause holds for
+    the first (although it has a modifier: `modsCore` fails) and fails for the second, which is really
+    read differently by `{MODIFIERS}` and `{MODIFIERS, INTERMEDIATE}`; these two sets agree on all other
+    flags. -/
+example : let b1 := C02.toks [(.at, ['@']), (.and, ['&']), (.word, ['f','l','o','u','r']), (.openBrace, ['{']),
+      (.closeBrace, ['}'])]
+    let b2 := C02.toks [(.at, ['@']), (.and, ['&']), (.openParen, ['(']), (.int, ['1']), (.closeParen, [')']),
+      (.word, ['x']), (.openBrace, ['{']), (.closeBrace, ['}'])]
+    interCore b1 = true ∧ modsCore b1 = false ∧ interCore b2 = false ∧
+    C02.obsI Gen.EXT_COMPONENT_MODIFIERS b2 ≠ C02.obsI Gen.EXT_INTERMEDIATE_PREPARATIONS b2 ∧
+    AgreeOn (otherFlags [Gen.EXT_INTERMEDIATE_PREPARATIONS]) ⟨Gen.EXT_INTERMEDIATE_PREPARATIONS⟩ ⟨Gen.EXT_COMPONENT_MODIFIERS⟩ ∧
+    (⟨Gen.EXT_INTERMEDIATE_PREPARATIONS⟩ : Ext).has Gen.EXT_INTERMEDIATE_PREPARATIONS ≠
+      (⟨Gen.EXT_COMPONENT_MODIFIERS⟩ : Ext).has Gen.EXT_INTERMEDIATE_PREPARATIONS := by
+  refine ⟨by decide, by decide, by decide, by decide +kernel, ?_, by decide⟩
+  intro g hg; revert g; decide
 
 /-- `@?a{1-2 kg} ~b`: a modifier, a range, advanced units, a timer without quantity — but no `|` -/
 def C02.mixedBlock : List Tok := C02.toks [(.at, ['@']), (.question, ['?']), (.word, ['a']), (.openBrace, ['{']),
@@ -709,5 +758,313 @@ example : let b := C02.toks [(.metaStart, ['>','>']), (.ws, [' ']), (.punct, ['[
       (.punct, [']']), (.colon, [':']), (.ws, [' ']), (.word, ['x'])]
     UsesNone toyCharSpec b = false ∧ C02.obs 0 false b ≠ C02.obs Gen.EXT_MODES false b := by
   decide
+
+
+/-! ### Locality lifted to the whole `parse` (`parseRecipe` = pull parser + analysis)
+
+  `analysisFlags` = MODES, INLINE_QUANTITIES, ADVANCED_UNITS (the flags the analysis reads);
+  `allFlags` = the seven parser flags and INLINE_QUANTITIES; `otherFlagsAll fs` = all flags but those
+  of `fs`.  `localToB G cs` is the Boolean form of `LocalTo G cs` (for every parser flag outside `G`
+  the block does not contain its trigger); `evsLocalB α G env evs` is the same for the analysis: for
+  every analysis flag outside `G` no event carries the construct that flag reinterprets. -/
+
+/-- The analysis pass (`RecipeCollector::parse_events`) depends on the extension set only through
+    MODES, INLINE_QUANTITIES and ADVANCED_UNITS — for ALL event lists, no premise on the events:
+    extension sets that agree on these three flags give the same recipe tables, metadata,
+    diagnostics and panic flag.  COMPONENT_MODIFIERS, COMPONENT_ALIAS, RANGE_VALUES,
+    TIMER_REQUIRES_TIME, INTERMEDIATE_PREPARATIONS and the undefined bits are never read. -/
+theorem C02_analysis_flags_only (env : Env) (e : Ext) (ha : AgreeOn analysisFlags e env.ext) (input : Str)
+    (evs : List (Ev α)) : parseEvents (env.withExt e) input evs = parseEvents env input evs :=
+  c02lift_parseEvents_flags_only env e ha input evs
+
+/-- The mixed form for the analysis: two extension sets that agree on the flags of `G` give the same
+    analysis result on every event list on which, for each analysis flag OUTSIDE `G`, the construct it
+    reinterprets does not occur (`evsLocalB`: MODES — no `>>` key is `[…]`; INLINE_QUANTITIES — no
+    inline quantity is found in a text and no text is empty; ADVANCED_UNITS — timers have a numeric
+    value and a time unit, an ingredient has no quantity, or is an intermediate reference, or has no
+    `&` and no `>>` key of the list is `[…]`).  `G ⊇ analysisFlags` is `C02_analysis_flags_only`,
+    `G = []` is `C02_analysis_ext_irrelevant` (slightly generalised for ingredients). -/
+theorem C02_analysis_flags_local (G : List Nat) (env : Env) (e : Ext) (ha : AgreeOn G e env.ext) (input : Str)
+    (evs : List (Ev α)) (h : evsLocalB α G env evs = true) :
+    parseEvents (env.withExt e) input evs = parseEvents env input evs :=
+  c02lift_parseEvents_local G env e ha input evs h
+
+/-- `CooklangParser::parse` depends on the extension set only through the eight flags: raw patterns
+    that agree on them give the same full result on EVERY input (no premise on the input). -/
+theorem C02_parse_flags_only (env : Env) (e : Ext) (ha : AgreeOn allFlags e env.ext) (input : Str) :
+    parseRecipe (α := α) (env.withExt e) input = parseRecipe env input := by
+  unfold parseRecipe
+  simp only [Env.withExt_cs, Env.withExt_ext]
+  rw [C02_inline_local_parser env.cs e env.ext input (ha.mono (by decide)),
+    c02lift_parseEvents_flags_only env e (ha.mono (by decide))]
+
+/-- C02, locality for the whole `parse`, general form.  `G` is any set of flags.  If for every parser
+    flag outside `G` no block of the input contains that flag's trigger (`localToB`, the clauses of
+    `C02_flags_local`) and for every analysis flag outside `G` no event of the input carries that
+    flag's construct (`evsLocalB`), then any extension set that agrees with `env.ext` on the flags of
+    `G` gives the same FULL result of `parse` (recipe tables, metadata, diagnostics, panic flag).
+    `G = []`: the main clause (`C02_parse_ext_irrelevant`); `G = allFlags`: `C02_parse_flags_only`;
+    `G` = all flags but one: that flag changes only its own construct (the corollaries below). -/
+theorem C02_parse_flags_local (G : List Nat) (env : Env) (e : Ext) (input : Str)
+    (ha : AgreeOn G e env.ext) (hb : AllBlocksOf env.cs input (localToB G env.cs) = true)
+    (hev : evsLocalB α G env (pullEvents (α := α) env.cs env.ext input).1.toList = true) :
+    parseRecipe (α := α) (env.withExt e) input = parseRecipe env input :=
+  c02lift_parseRecipe_local G env e input ha hb hev
+
+/-- … in the symmetric form: any two extension sets that agree on `G` -/
+theorem C02_parse_flags_local_two (G : List Nat) (env : Env) (e₁ e₂ : Ext) (input : Str)
+    (ha : AgreeOn G e₁ e₂) (hb : AllBlocksOf env.cs input (localToB G env.cs) = true)
+    (hev : evsLocalB α G env (pullEvents (α := α) env.cs e₂ input).1.toList = true) :
+    parseRecipe (α := α) (env.withExt e₁) input = parseRecipe (env.withExt e₂) input :=
+  c02lift_parseRecipe_local_two G env e₁ e₂ input ha hb hev
+
+/-- the parser-only flags: when `G` contains the three analysis flags nothing is asked of the events -/
+theorem C02_parse_parser_flag_local (G : List Nat) (hG : ∀ g ∈ analysisFlags, g ∈ G) (env : Env) (e : Ext)
+    (input : Str) (ha : AgreeOn G e env.ext) (hb : AllBlocksOf env.cs input (localToB G env.cs) = true) :
+    parseRecipe (α := α) (env.withExt e) input = parseRecipe env input :=
+  c02lift_parseRecipe_local G env e input ha hb
+    (c02lift_evsLocalB_of G env _ (fun ev _ => c02lift_evLocalB_all env _ ev (hG _ (by decide)) (hG _ (by decide))
+      (hG _ (by decide))))
+
+/-- COMPONENT_MODIFIERS and INTERMEDIATE_PREPARATIONS change only components whose marker is followed by
+    one of `@ & ? + -`, in the whole `parse`: on an input no block of which has such a marker
+    (`modsCore`), extension sets that agree on the other six flags give the same full result —
+    the input may use aliases, ranges, advanced units, timers without quantity, `>> [key]` lines,
+    inline quantities. -/
+theorem C02_modifiers_local_parse (env : Env) (e : Ext) (input : Str)
+    (ha : AgreeOn (otherFlagsAll [Gen.EXT_COMPONENT_MODIFIERS, Gen.EXT_INTERMEDIATE_PREPARATIONS]) e env.ext)
+    (h : AllBlocksOf env.cs input modsCore = true) :
+    parseRecipe (α := α) (env.withExt e) input = parseRecipe env input :=
+  C02_parse_parser_flag_local _ (by decide) env e input ha
+    (c02lift_allBlocksOf_mono env.cs input _ _ (fun b hb => c02lift_localToB_of
+      ⟨Or.inr hb, Or.inl (by decide), Or.inl (by decide), Or.inl (by decide), Or.inl (by decide),
+       Or.inl (by decide)⟩) h)
+
+/-- INTERMEDIATE_PREPARATIONS alone changes only `&(…)` references, in the whole `parse`: on an input no
+    block of which has a `&` token directly followed by a `(` token (`interCore`), extension sets that
+    agree on the other seven flags (COMPONENT_MODIFIERS included) give the same full result. -/
+theorem C02_intermediate_local_parse (env : Env) (e : Ext) (input : Str)
+    (ha : AgreeOn (otherFlagsAll [Gen.EXT_INTERMEDIATE_PREPARATIONS]) e env.ext)
+    (h : AllBlocksOf env.cs input interCore = true) :
+    parseRecipe (α := α) (env.withExt e) input = parseRecipe env input :=
+  C02_parse_parser_flag_local _ (by decide) env e input ha
+    (c02lift_allBlocksOf_mono env.cs input _ _ (fun b hb => c02lift_localToB_of
+      ⟨Or.inl ⟨by decide, Or.inr hb⟩, Or.inl (by decide), Or.inl (by decide), Or.inl (by decide), Or.inl (by decide),
+       Or.inl (by decide)⟩) h)
+
+/-- COMPONENT_ALIAS changes only names with a `|`, in the whole `parse` (clause `aliasCore` on every block) -/
+theorem C02_alias_local_parse (env : Env) (e : Ext) (input : Str)
+    (ha : AgreeOn (otherFlagsAll [Gen.EXT_COMPONENT_ALIAS]) e env.ext)
+    (h : AllBlocksOf env.cs input aliasCore = true) :
+    parseRecipe (α := α) (env.withExt e) input = parseRecipe env input :=
+  C02_parse_parser_flag_local _ (by decide) env e input ha
+    (c02lift_allBlocksOf_mono env.cs input _ _ (fun b hb => c02lift_localToB_of
+      ⟨Or.inl ⟨by decide, Or.inl (by decide)⟩, Or.inr hb, Or.inl (by decide), Or.inl (by decide), Or.inl (by decide),
+       Or.inl (by decide)⟩) h)
+
+/-- RANGE_VALUES changes only quantities with a `-`, in the whole `parse` (clause `rangeCore` on every block) -/
+theorem C02_range_local_parse (env : Env) (e : Ext) (input : Str)
+    (ha : AgreeOn (otherFlagsAll [Gen.EXT_RANGE_VALUES]) e env.ext)
+    (h : AllBlocksOf env.cs input rangeCore = true) :
+    parseRecipe (α := α) (env.withExt e) input = parseRecipe env input :=
+  C02_parse_parser_flag_local _ (by decide) env e input ha
+    (c02lift_allBlocksOf_mono env.cs input _ _ (fun b hb => c02lift_localToB_of
+      ⟨Or.inl ⟨by decide, Or.inl (by decide)⟩, Or.inl (by decide), Or.inr hb, Or.inl (by decide), Or.inl (by decide),
+       Or.inl (by decide)⟩) h)
+
+/-- TIMER_REQUIRES_TIME changes only timers without a quantity, in the whole `parse` (clause `timerCore`
+    on every block) -/
+theorem C02_timer_time_local_parse (env : Env) (e : Ext) (input : Str)
+    (ha : AgreeOn (otherFlagsAll [Gen.EXT_TIMER_REQUIRES_TIME]) e env.ext)
+    (h : AllBlocksOf env.cs input timerCore = true) :
+    parseRecipe (α := α) (env.withExt e) input = parseRecipe env input :=
+  C02_parse_parser_flag_local _ (by decide) env e input ha
+    (c02lift_allBlocksOf_mono env.cs input _ _ (fun b hb => c02lift_localToB_of
+      ⟨Or.inl ⟨by decide, Or.inl (by decide)⟩, Or.inl (by decide), Or.inl (by decide), Or.inl (by decide), Or.inr hb,
+       Or.inl (by decide)⟩) h)
+
+/-- ADVANCED_UNITS is read by the parser AND by the analysis: on an input every `{quantity}` of which the
+    advanced parser declines (`advCore` on every block) and whose events carry nothing for the unit
+    checks to act on (`advEvCore`: timers have a numeric value and a time unit; an ingredient has no
+    quantity, or is an intermediate reference, or has no `&` and no `>>` key is `[…]`), extension sets
+    that agree on the other seven flags give the same full result. -/
+theorem C02_advanced_local_parse (env : Env) (e : Ext) (input : Str)
+    (ha : AgreeOn (otherFlagsAll [Gen.EXT_ADVANCED_UNITS]) e env.ext)
+    (h : AllBlocksOf env.cs input advCore = true)
+    (hev : (pullEvents (α := α) env.cs env.ext input).1.toList.all
+      (advEvCore env ((pullEvents (α := α) env.cs env.ext input).1.toList.all (evNoBracket env.cs))) = true) :
+    parseRecipe (α := α) (env.withExt e) input = parseRecipe env input :=
+  c02lift_parseRecipe_local _ env e input ha
+    (c02lift_allBlocksOf_mono env.cs input _ _ (fun b hb => c02lift_localToB_of
+      ⟨Or.inl ⟨by decide, Or.inl (by decide)⟩, Or.inl (by decide), Or.inl (by decide), Or.inr hb, Or.inl (by decide),
+       Or.inl (by decide)⟩) h)
+    (c02lift_evsLocalB_of _ env _ (fun ev hv =>
+      c02lift_evLocalB_adv env _ ev (by decide) (by decide) (List.all_eq_true.mp hev ev hv)))
+
+/-- MODES is read by the parser AND by the analysis: on an input no block of which is a `>> [key]` line
+    (`metaKeyCore`) and no `>>` event of which has a `[…]` key as the analysis tests it (`evNoBracket`;
+    the two tests agree for the generated character table, `C02_key_tests_agree`), extension sets that
+    agree on the other seven flags give the same full result. -/
+theorem C02_modes_local_parse (env : Env) (e : Ext) (input : Str)
+    (ha : AgreeOn (otherFlagsAll [Gen.EXT_MODES]) e env.ext)
+    (h : AllBlocksOf env.cs input (metaKeyCore env.cs) = true)
+    (hev : (pullEvents (α := α) env.cs env.ext input).1.toList.all (evNoBracket env.cs) = true) :
+    parseRecipe (α := α) (env.withExt e) input = parseRecipe env input :=
+  c02lift_parseRecipe_local _ env e input ha
+    (c02lift_allBlocksOf_mono env.cs input _ _ (fun b hb => c02lift_localToB_of
+      ⟨Or.inl ⟨by decide, Or.inl (by decide)⟩, Or.inl (by decide), Or.inl (by decide), Or.inl (by decide), Or.inl (by decide),
+       Or.inr hb⟩) h)
+    (c02lift_evsLocalB_of _ env _ (fun ev hv =>
+      c02lift_evLocalB_modes env _ ev (by decide) (by decide) (List.all_eq_true.mp hev ev hv)))
+
+/-- what the parser produces on an input none of whose blocks is a `>> [key]` line (`metaKeyCore`), the
+    blocks being otherwise arbitrary: no `>>` event has a `[…]` key as the analysis tests it (for every
+    character table that classifies the ASCII space as whitespace) -/
+theorem C02_metaKeyCore_events (cs : CharSpec) (hws : cs.uws ' ' = true) (e : Ext) (input : List Char)
+    (h : AllBlocksOf cs input (metaKeyCore cs) = true) :
+    (pullEvents (α := α) cs e input).1.toList.all (evNoBracket cs) = true :=
+  c02meta_evNoBracket cs (keyTestsAgree_of_space cs hws) e input h
+
+/-- MODES, the whole `parse`, premise on the tokens only: on an input none of whose blocks is a
+    `>> [key]` line, extension sets that agree on the other seven flags give the same full result -/
+theorem C02_modes_local_parse_tokens (env : Env) (hws : env.cs.uws ' ' = true) (e : Ext) (input : Str)
+    (ha : AgreeOn (otherFlagsAll [Gen.EXT_MODES]) e env.ext)
+    (h : AllBlocksOf env.cs input (metaKeyCore env.cs) = true) :
+    parseRecipe (α := α) (env.withExt e) input = parseRecipe env input :=
+  C02_modes_local_parse env e input ha h (C02_metaKeyCore_events env.cs hws env.ext input h)
+
+/-- ADVANCED_UNITS, the whole `parse`, when in addition no block is a `>> [key]` line (so that the
+    collector stays in its default modes): an ingredient with a quantity only has to lack the `&`
+    modifier (`advEvCore env true`) -/
+theorem C02_advanced_local_parse_default_modes (env : Env) (hws : env.cs.uws ' ' = true) (e : Ext) (input : Str)
+    (ha : AgreeOn (otherFlagsAll [Gen.EXT_ADVANCED_UNITS]) e env.ext)
+    (h : AllBlocksOf env.cs input advCore = true)
+    (hm : AllBlocksOf env.cs input (metaKeyCore env.cs) = true)
+    (hev : (pullEvents (α := α) env.cs env.ext input).1.toList.all (advEvCore env true) = true) :
+    parseRecipe (α := α) (env.withExt e) input = parseRecipe env input :=
+  C02_advanced_local_parse env e input ha h
+    (by rw [C02_metaKeyCore_events env.cs hws env.ext input hm]; exact hev)
+
+/-- INLINE_QUANTITIES is read by the analysis only: on EVERY input in whose step texts the finder finds
+    nothing (and no text is empty), extension sets that agree on the seven parser flags give the same
+    full result — no premise on the blocks. -/
+theorem C02_inline_local_parse (env : Env) (e : Ext) (input : Str)
+    (ha : AgreeOn (otherFlagsAll [Gen.EXT_INLINE_QUANTITIES]) e env.ext)
+    (hev : (pullEvents (α := α) env.cs env.ext input).1.toList.all (inlineEvCore α env) = true) :
+    parseRecipe (α := α) (env.withExt e) input = parseRecipe env input :=
+  c02lift_parseRecipe_local _ env e input ha
+    (c02lift_allBlocksOf_mono env.cs input _ _ (fun b _ => c02lift_localToB_of
+      ⟨Or.inl ⟨by decide, Or.inl (by decide)⟩, Or.inl (by decide), Or.inl (by decide), Or.inl (by decide), Or.inl (by decide),
+       Or.inl (by decide)⟩) (c02lift_allBlocksOf_true env.cs input))
+    (c02lift_evsLocalB_of _ env _ (fun ev hv =>
+      c02lift_evLocalB_inline env _ ev (by decide) (by decide) (List.all_eq_true.mp hev ev hv)))
+
+/-! #### The converse clause for the whole `parse`: a disabled extension's syntax reads as under
+    `Extensions::empty()` -/
+
+/-- `C02_disabled_reads_as_core` (DESIGN §6): let `offFlags env.ext` be the flags that are OFF.  An input
+    that avoids the triggers of the flags that are ON (blocks: `localToB`, events: `evsLocalB`, both
+    relative to the off flags) is read EXACTLY as under `Extensions::empty()` — even when it uses the
+    syntax of the flags that are off: that syntax is then what the core language makes of it (`|` in the
+    name, `2-3` and `1 kg` text values, `>> [mode]` a plain entry, numbers in step text stay text, a
+    timer without duration accepted, `@?x` a component named after the `?`… see the gate-level
+    converse theorems `C02_*_off`). -/
+theorem C02_disabled_reads_as_core (env : Env) (input : Str)
+    (hb : AllBlocksOf env.cs input (localToB (offFlags env.ext) env.cs) = true)
+    (hev : evsLocalB α (offFlags env.ext) env (pullEvents (α := α) env.cs env.ext input).1.toList = true) :
+    parseRecipe (α := α) (env.withExt ⟨0⟩) input = parseRecipe env input :=
+  c02lift_parseRecipe_local _ env ⟨0⟩ input (c02lift_agree_off env.ext) hb hev
+
+/-- … per flag (any of the eight): with the flag `f` off, an input that uses ONLY that flag's syntax
+    (for every other flag its trigger is absent: `localToB [f]`, `evsLocalB [f]`) is read exactly as
+    under `Extensions::empty()`, whatever the other seven flags are. -/
+theorem C02_flag_off_reads_as_core (f : Nat) (hf : f ∈ allFlags) (env : Env) (hoff : env.ext.has f = false)
+    (input : Str) (hb : AllBlocksOf env.cs input (localToB [f] env.cs) = true)
+    (hev : evsLocalB α [f] env (pullEvents (α := α) env.cs env.ext input).1.toList = true) :
+    parseRecipe (α := α) (env.withExt ⟨0⟩) input = parseRecipe env input :=
+  c02lift_parseRecipe_local _ env ⟨0⟩ input (c02lift_agree_single f hf env.ext hoff) hb hev
+
+/-- … for COMPONENT_MODIFIERS the pair of flags: with COMPONENT_MODIFIERS off INTERMEDIATE_PREPARATIONS is
+    off too (`bitflags`: it contains the COMPONENT_MODIFIERS bit), so an input that uses only modifier
+    syntax — `@?x`, `@&(1)x` included — is read exactly as under `Extensions::empty()`: the characters
+    after the marker are not consumed as modifiers (`C02_modifiers_off`). -/
+theorem C02_modifiers_off_reads_as_core (env : Env) (hoff : env.ext.has Gen.EXT_COMPONENT_MODIFIERS = false)
+    (input : Str)
+    (hb : AllBlocksOf env.cs input
+      (localToB [Gen.EXT_COMPONENT_MODIFIERS, Gen.EXT_INTERMEDIATE_PREPARATIONS] env.cs) = true)
+    (hev : evsLocalB α [Gen.EXT_COMPONENT_MODIFIERS, Gen.EXT_INTERMEDIATE_PREPARATIONS] env
+      (pullEvents (α := α) env.cs env.ext input).1.toList = true) :
+    parseRecipe (α := α) (env.withExt ⟨0⟩) input = parseRecipe env input :=
+  c02lift_parseRecipe_local _ env ⟨0⟩ input (c02lift_agree_mods env.ext hoff) hb hev
+
+/-- `bitflags`: an extension set with INTERMEDIATE_PREPARATIONS has COMPONENT_MODIFIERS (all raw patterns) -/
+theorem C02_intermediate_implies_modifiers (e : Ext) (h : e.has Gen.EXT_INTERMEDIATE_PREPARATIONS = true) :
+    e.has Gen.EXT_COMPONENT_MODIFIERS = true :=
+  c02lift_inter_implies_mods e h
+
+/-- `Mix @a|b{2-3} and @c{1 kg} for ~rest.`: alias, range, advanced units, a timer without quantity -/
+def C02.extInput : List Char := "Mix @a|b{2-3} and @c{1 kg} for ~rest.".toList
+
+/-- all flags but COMPONENT_MODIFIERS / INTERMEDIATE_PREPARATIONS on -/
+def C02.envOn : Env := { C02.env with ext := ⟨Gen.EXT_COMPONENT_ALIAS ||| Gen.EXT_RANGE_VALUES ||| Gen.EXT_ADVANCED_UNITS |||
+  Gen.EXT_TIMER_REQUIRES_TIME ||| Gen.EXT_MODES ||| Gen.EXT_INLINE_QUANTITIES⟩ }
+
+/-- the premises are satisfiable by an input that uses the OTHER extensions' syntax: `C02.extInput` has
+    no marker followed by a modifier character (and nothing for the analysis clauses of MODIFIERS —
+    there are none), so toggling COMPONENT_MODIFIERS / INTERMEDIATE_PREPARATIONS does not change its parse
+    although alias, range, advanced units, timer-requires-time are ON and used; and the flags outside
+    `otherFlagsAll …` really differ between `{MODIFIERS, INTERMEDIATE}` and `∅` -/
+example : AllBlocksOf C02.envOn.cs C02.extInput modsCore = true ∧
+    AllBlocksOf C02.envOn.cs C02.extInput aliasCore = false ∧
+    AllBlocksOf C02.envOn.cs C02.extInput rangeCore = false ∧
+    AllBlocksOf C02.envOn.cs C02.extInput advCore = false ∧
+    AllBlocksOf C02.envOn.cs C02.extInput timerCore = false := by
+  decide +kernel
+
+/-- with every flag OFF the same input satisfies the premises of `C02_disabled_reads_as_core`
+    (`offFlags ∅ = allFlags`), and with only COMPONENT_ALIAS off an input that uses only `|` satisfies
+    those of `C02_flag_off_reads_as_core` -/
+example : offFlags C02.env.ext = allFlags ∧
+    AllBlocksOf C02.env.cs C02.extInput (localToB (offFlags C02.env.ext) C02.env.cs) = true ∧
+    evsLocalB Rat (offFlags C02.env.ext) C02.env
+      (pullEvents (α := Rat) C02.env.cs C02.env.ext C02.extInput).1.toList = true := by
+  decide +kernel
+
+example : let input := "Mix @a|b{} well.".toList
+    AllBlocksOf C02.env.cs input (localToB [Gen.EXT_COMPONENT_ALIAS] C02.env.cs) = true ∧
+    evsLocalB Rat [Gen.EXT_COMPONENT_ALIAS] C02.env (pullEvents (α := Rat) C02.env.cs C02.env.ext input).1.toList = true ∧
+    AllBlocksOf C02.env.cs input aliasCore = false := by
+  decide +kernel
+
+example : let input := "Add @?salt and @&(1)dough{}.".toList
+    let G := [Gen.EXT_COMPONENT_MODIFIERS, Gen.EXT_INTERMEDIATE_PREPARATIONS]
+    AllBlocksOf C02.env.cs input (localToB G C02.env.cs) = true ∧
+    evsLocalB Rat G C02.env (pullEvents (α := Rat) C02.env.cs C02.env.ext input).1.toList = true ∧
+    AllBlocksOf C02.env.cs input modsCore = false ∧ AllBlocksOf C02.env.cs input interCore = false := by
+  decide +kernel
+
+/-- the premises of `C02_advanced_local_parse` and of `C02_inline_local_parse` are satisfiable by inputs
+    that use other extensions' syntax: `Mix @a|b{2-3} for ~{5%min}.` (alias, range; the quantity has no
+    blank-separated unit, the timer a time unit) and `Add 2 eggs to @a{1 kg}.` (advanced units; `eggs`
+    is no unit of the converter) -/
+example : let input := "Mix @a|b{2-3} for ~{5%min}.".toList
+    let evs := (pullEvents (α := Rat) C02.env.cs C02.env.ext input).1.toList
+    AllBlocksOf C02.env.cs input advCore = true ∧ AllBlocksOf C02.env.cs input aliasCore = false ∧
+    evs.all (advEvCore C02.env (evs.all (evNoBracket C02.env.cs))) = true := by
+  decide +kernel
+
+example : let input := "Add 2 eggs to @a{1 kg}.".toList
+    (pullEvents (α := Rat) C02.env.cs C02.env.ext input).1.toList.all (inlineEvCore Rat C02.env) = true ∧
+    AllBlocksOf C02.env.cs input advCore = false := by
+  decide +kernel
+
+/-- the agreement hypotheses are satisfiable by sets that really differ in the flag -/
+example : AgreeOn (otherFlagsAll [Gen.EXT_COMPONENT_ALIAS]) ⟨Gen.EXT_COMPONENT_ALIAS⟩ ⟨0⟩ ∧
+    AgreeOn (otherFlagsAll [Gen.EXT_INLINE_QUANTITIES]) ⟨Gen.EXT_INLINE_QUANTITIES⟩ ⟨0⟩ ∧
+    AgreeOn (otherFlagsAll [Gen.EXT_ADVANCED_UNITS]) ⟨Gen.EXT_ADVANCED_UNITS⟩ ⟨0⟩ ∧
+    AgreeOn (otherFlagsAll [Gen.EXT_MODES]) ⟨Gen.EXT_MODES⟩ ⟨0⟩ ∧
+    AgreeOn (otherFlagsAll [Gen.EXT_COMPONENT_MODIFIERS, Gen.EXT_INTERMEDIATE_PREPARATIONS])
+      ⟨Gen.EXT_COMPONENT_MODIFIERS ||| Gen.EXT_INTERMEDIATE_PREPARATIONS⟩ ⟨0⟩ := by
+  refine ⟨?_, ?_, ?_, ?_, ?_⟩ <;> (intro g hg; revert g; decide)
 
 end Cook
